@@ -129,6 +129,22 @@ type R struct {
 	debug bool
 }
 
+func lower(o *Opt, a, b *S) bool {
+	if o.Max != 0 {
+		return a.a < b.a
+	}
+	return a.b < b.b
+}
+
+func SwitchHelper(s, t *S, o *Opt) {
+	switch {
+	case s.a == 1 && t.a == 2:
+		use("first case")
+	case s.next == t.next && lower(o, t, s):
+		use("second case")
+	}
+}
+
 func Latch(r *R, e error) {
 	if e != nil && r.err == nil {
 		r.err = e
@@ -388,5 +404,15 @@ func TestReverseImplication(t *testing.T) {
 		if ok, have := fi.Implies(c.Block(), Not(EqAtom("e", "nil"))); !ok {
 			t.Errorf("%s: forward implication lost: %v", tc.fn, have)
 		}
+	}
+}
+
+func TestHelperInSwitchCase(t *testing.T) {
+	p := loadTest(t)
+	fn := fnNamed(t, p, "SwitchHelper")
+	fi, c := useCall(t, p, fn, "second case")
+	need := Or(LtAtom(Sym("t.a"), Sym("s.a")), LtAtom(Sym("t.b"), Sym("s.b")))
+	if ok, have := fi.Implies(c.Block(), need); !ok {
+		t.Errorf("a two-way helper predicate in a switch case (after &&) is not looked through: %v", have)
 	}
 }
